@@ -435,6 +435,89 @@ class HostCase:
             return
         ctx.case((self.kind, 'raising_callback', how), {'how': how})
 
+    def step_remote_callbacks(self):
+        """Emits with callbacks to a client that is connected to another
+        server.  The acknowledgement comes back as a channel message that
+        names this server: it completes the callback once.  Messages that do
+        not name this server - another server's id, no id at all, None, '' -
+        and repeated messages for an id that has been used complete nothing
+        (an id is therefore never issued twice for one client)."""
+        rng, r, ctx = self.rng, self.r, self.ctx
+        import pickle as _p
+        self.remote_n = getattr(self, 'remote_n', 0) + 1
+        sid = 'remote-client-%d' % (self.remote_n if rng.random() < 0.5
+                                    else 1)
+        ns = rng.choice(['/', '/a'])
+        fired = []
+        used = self.__dict__.setdefault('remote_ids', {}).setdefault(
+            (sid, ns), set())
+        self.history.append(['remote_callbacks', sid, ns])
+
+        def emit(tag):
+            n0 = len(self.chan.log)
+            try:
+                r.d.api('emit', 'needs_ack', {'tag': tag}, to=sid,
+                        namespace=ns, callback=lambda *a: fired.append(
+                            (tag, a)))
+            except Exception as e:
+                self.fail('emit with callback to a remote client raised %r'
+                          % e)
+                return None
+            msgs = [_p.loads(x) for x in self.chan.log[n0:]]
+            msgs = [m for m in msgs if isinstance(m, dict) and
+                    m.get('method') == 'emit']
+            if len(msgs) != 1 or not msgs[0].get('callback'):
+                self.fail('emit with callback published %r' % (msgs,))
+                return None
+            return msgs[0]['callback'][2]
+
+        def inject(host, cid, args):
+            msg = {'method': 'callback', 'sid': sid, 'namespace': ns,
+                   'id': cid, 'args': args}
+            if host != 'absent':
+                msg['host_id'] = host
+            self.push(_p.dumps(msg))
+        own = self.mgr.host_id
+        id_a = emit('a')
+        if id_a is None:
+            return
+        inject(own, id_a, ['for-a'])
+        if fired != [('a', ('for-a',))]:
+            return self.fail('the acknowledgement of a remote client, '
+                             'relayed to this server, invoked %r' % (fired,))
+        used.add(id_a)
+        id_b = emit('b')
+        if id_b is None:
+            return
+        ctx.count('remote_callback_ids_checked')
+        if id_b in used:
+            return self.fail('acknowledgement id %r was issued a second time '
+                             'for client %r: a repeated or late callback '
+                             'message for the earlier emit would complete '
+                             'this one' % (id_b, sid))
+        del fired[:]
+        # repeated message for the id that was used
+        inject(own, id_a, ['again'])
+        # messages that do not name this server
+        for host in rng.sample([OTHER, 'absent', None, '', 0], 3):
+            inject(host, id_b, ['not-for-you'])
+            ctx.count('callback_messages_not_naming_this_server')
+        if fired:
+            return self.fail('a callback message that was repeated / did not '
+                             'name this server completed a local callback: '
+                             '%r' % (fired,))
+        inject(own, id_b, ['for-b', 2])
+        if fired != [('b', ('for-b', 2))]:
+            return self.fail('after callback messages for other servers the '
+                             'acknowledgement meant for this server invoked '
+                             '%r' % (fired,))
+        used.add(id_b)
+        if self.listener_dead:
+            return self.fail('the listener stopped while handling callback '
+                             'messages')
+        r.d.clear_errors()
+        ctx.case((self.kind, 'remote_callbacks', ns), None)
+
     def step_bad_burst(self):
         """Several bad messages in a row, nothing valid between them: the
         listener is still there for what follows."""
@@ -547,6 +630,11 @@ class HostCase:
         for _ in range(n):
             if self.rng.random() < 0.06:
                 self.step_raising_callback()
+                if self.failed:
+                    return
+                continue
+            if self.rng.random() < 0.05:
+                self.step_remote_callbacks()
                 if self.failed:
                     return
                 continue
@@ -860,6 +948,8 @@ def run(ctx):
     ctx.require('raising_callbacks_cancelled', 5)
     ctx.require('listen_restarts', 5)
     ctx.require('redis_cases', 20)
+    ctx.require('remote_callback_ids_checked', 10)
+    ctx.require('callback_messages_not_naming_this_server', 20)
     k = 0
     j = 0
     while not ctx.out_of_time() and not ctx.too_many_violations():
